@@ -281,6 +281,20 @@ def search(ctx):
 
 
 def replay(ctx, case):
-    print(case["input"])
-    print("observed:", case.get("observed"), "expected:", case.get("expected"))
+    """re-run the recorded history on the implementation (and the model) and say whether the property fails again"""
+    inp = case["input"]
+    print({k: inp[k] for k in ("ops", "note") if k in inp})
+    print("recorded: observed", case.get("observed"), "expected", case.get("expected"))
+    names = inp.get("history")
+    if not names:
+        return 0
+    with_life = any(str(o).startswith("life") for o in inp.get("ops", []))
+    n_v, n_k = len(ctx.violations), sum(len(v) for v in ctx.known_hits.values())
+    run_one(ctx, case.get("stream", "replay"), ctx.rng, list(names), with_life=with_life)
+    again = ctx.violations[n_v:]
+    known = sum(len(v) for v in ctx.known_hits.values()) - n_k
+    if again:
+        print("replayed on the implementation: VIOLATED again:", again[0]["observed"], "-", again[0]["what"])
+        return 1
+    print("replayed on the implementation: property held" + (f" ({known} hit(s) of a known finding)" if known else ""))
     return 0
